@@ -38,6 +38,10 @@ func processALIGNB(env *Pass1, operands []ast.Exp) {
 // processDB handles the DB pseudo-instruction.
 // It processes evaluated operands (numbers, strings, labels).
 func processDB(env *Pass1, operands []ast.Exp) {
+	if len(operands) == 0 { // オペランドのない DB は何も出力しないので、黙って受け付けずに報告する
+		log.Printf("Error: DB directive requires at least one operand.")
+		return
+	}
 	var loc int32 = 0
 	var ocodes []int32 // Use int32 for consistency with emitCommand, though DB is bytes
 
@@ -130,6 +134,10 @@ func processDB(env *Pass1, operands []ast.Exp) {
 
 // processDW handles the DW pseudo-instruction.
 func processDW(env *Pass1, operands []ast.Exp) {
+	if len(operands) == 0 { // オペランドのない DW は何も出力しないので、黙って受け付けずに報告する
+		log.Printf("Error: DW directive requires at least one operand.")
+		return
+	}
 	var loc int32 = 0
 	var ocodes []int32
 
@@ -171,6 +179,10 @@ func processDW(env *Pass1, operands []ast.Exp) {
 
 // processDD handles the DD pseudo-instruction.
 func processDD(env *Pass1, operands []ast.Exp) {
+	if len(operands) == 0 { // オペランドのない DD は何も出力しないので、黙って受け付けずに報告する
+		log.Printf("Error: DD directive requires at least one operand.")
+		return
+	}
 	var loc int32 = 0
 	var ocodes []int32
 
